@@ -789,7 +789,7 @@ FABRIC_SCRIPTS = {
   # (call, args...): sub(queue, signal, kind) / pub(event index)
   "late-subscriber": [("sub", 0, "A", "fifo"), ("pub", 0), ("sub", 1, "A", "fifo"), ("pub", 1), ("pub", 2)],
   "resubscribe": [("sub", 0, "A", "fifo"), ("sub", 1, "A", "fifo"), ("sub", 0, "A", "fifo"), ("pub", 0), ("pub", 1)],
-  "resubscribe-during-delivery": [("sub", 0, "A", "fifo"), ("sub", 1, "A", "fifo"), ("pub", 0), ("sub", 0, "A", "fifo"), ("pub", 1)],
+  "resubscribe-during-delivery": [("sub", 0, "A", "fifo"), ("sub", 1, "A", "fifo"), ("pub", 0), ("sub", 0, "A", "fifo")],
   "two-kinds": [("sub", 0, "A", "fifo"), ("sub", 1, "A", "lifo"), ("pub", 0), ("sub", 0, "A", "lifo"), ("pub", 1)],
   "priorities": [("sub", 0, "A", "fifo"), ("pub", 3), ("pub", 0), ("pub", 1)],
 }
